@@ -21,7 +21,7 @@ var interesting64 = []uint64{0, 1, 0xffffffff, 0x100000000, 0x7fffffffffffffff, 
 
 // MutationKinds names the mutation operators (for the distribution counters).
 var MutationKinds = []string{"bitflip", "setbyte", "truncate", "extend", "delete", "insert", "dup",
-	"len16", "len32", "len64", "lenrel", "splice", "cbor-count", "cbor-indef", "cbor-tag", "cbor-nest", "cbor-dupkey", "cbor-huge", "cbor-swap-major", "cbor-replace-item", "cbor-drop-pair"}
+	"len16", "len32", "len64", "lenrel", "splice", "lenword", "cbor-count", "cbor-indef", "cbor-tag", "cbor-nest", "cbor-dupkey", "cbor-huge", "cbor-swap-major", "cbor-replace-item", "cbor-drop-pair"}
 
 // RandBytes returns n bytes.
 func RandBytes(r *hlib.Rng, n int) []byte {
@@ -161,7 +161,7 @@ func replace(b []byte, from, to int, with []byte) []byte {
 func Mutate(r *hlib.Rng, seed, other []byte, cborAware bool) ([]byte, string) {
 	b := append([]byte(nil), seed...)
 	n := len(b)
-	nk := 12
+	nk := 13 // generic operators; the cbor-* ones follow
 	if cborAware {
 		nk = len(MutationKinds)
 	}
@@ -279,6 +279,13 @@ func Mutate(r *hlib.Rng, seed, other []byte, cborAware bool) ([]byte, string) {
 			i := r.Intn(n)
 			j := r.Intn(len(other))
 			return append(b[:i:i], other[j:]...), kind
+		case "lenword":
+			// A 2-byte-aligned 16/32-bit word (either byte order) set to a boundary length:
+			// 0, 1, around the remaining / total length, 2^15, 2^31, the top of the range.
+			if n < 2 {
+				continue
+			}
+			return MutateLenWord(r, b), kind
 		}
 		// CBOR-aware operators.
 		items := walkCBOR(b)
